@@ -1221,6 +1221,57 @@ fn export_histories(acc: &mut Acc, grow: u32) {
         }
     }
     acc.count("export_histories", cases.len() as u64 * 2);
+    // drain cycles: the collection empties itself through expiry again and again (one entry, a query after it
+    // has expired), then a few entries and the export: whatever a drain leaves behind must not add up
+    for (drains, n2) in [(200u32, 3u32), (5000, 3), (5000, 100)] {
+        for subject in 0..2u32 {
+            rt::hist_reset();
+            rt::hist_push(code(4, 1, drains as u64, n2 as u64, subject as u64));
+            let label = format!("{drains} x (insert one entry expiring at the next tick, look it up after it has expired), then {n2} inserts");
+            println!("TRYING export-history {label} subject={subject}");
+            let case = vec![format!("{}::new(8)", if subject == 0 { "KeyExpTree" } else { "KeyExpList" }), label.clone(), format!("into_ordered_vec({})", drains + 1)];
+            let r = guard(|| {
+                let tq = drains + 1;
+                if subject == 0 {
+                    let mut t: KeyExpTree<BKey, u32, u32> = KeyExpTree::new(8);
+                    for i in 0..drains {
+                        KC::insert(&mut t, BKey { id: i, exp: i + 1 }, i, i);
+                        let _ = KC::get_value(&mut t, i + 1, BKey { id: i, exp: 0 });
+                    }
+                    for i in 0..n2 {
+                        KC::insert(&mut t, BKey { id: 1_000_000 + i, exp: u32::MAX }, i, tq);
+                    }
+                    (tree_stored(&t), t.into_ordered_vec(tq))
+                } else {
+                    let mut t: KeyExpList<BKey, u32, u32> = KeyExpList::new(8);
+                    for i in 0..drains {
+                        KC::insert(&mut t, BKey { id: i, exp: i + 1 }, i, i);
+                        let _ = KC::get_value(&mut t, i + 1, BKey { id: i, exp: 0 });
+                    }
+                    for i in 0..n2 {
+                        KC::insert(&mut t, BKey { id: 1_000_000 + i, exp: u32::MAX }, i, tq);
+                    }
+                    (t.verif_snapshot().0.len(), t.into_ordered_vec(tq))
+                }
+            });
+            acc.transitions += (2 * drains + n2) as u64 + 1;
+            acc.evals += 1;
+            acc.states.insert(fingerprint(format!("drain:{drains}:{n2}:{subject}").as_bytes()));
+            match r {
+                Err(_) => acc.viol("export", "panic", format!("export after '{label}' panicked: {}", rt::last_panic()), case),
+                Ok((stored, v)) => {
+                    let bound = 8 * stored + 64;
+                    if v.capacity() > bound {
+                        acc.viol("export", "export-capacity", format!("after '{label}' (subject #{subject}) {stored} entries were stored but into_ordered_vec returned capacity {} > 8n+64 = {bound}", v.capacity()), case.clone());
+                    }
+                    if v.len() != n2 as usize {
+                        acc.viol("export", "export-content", format!("after '{label}' the export holds {} values, expected {n2}", v.len()), case);
+                    }
+                }
+            }
+        }
+    }
+    acc.count("export_drain_histories", 6);
 }
 
 // ---------------------------------------------------------------------------
